@@ -82,3 +82,18 @@ check('C14', 'objsim', 'exploration',
       'deterministic simulation: fresh interpreters per hash seed, permuted construction order, seeded serialisation histories',
       'DESIGN.md 4.3')
 PENDING.pop('C14', None)
+check('C11', 'objsim', 'exploration',
+      'The machine\'s time-zone configuration is the simulated dimension: every tzdata zone (599) and 16 POSIX TZ '
+      'strings are installed with TZ + tzset() and compose_timestamp / parse_timestamp (4/8 bytes, seconds / '
+      'milliseconds, aware-UTC / naive-UTC / aware-other-offset values, the forever sentinel) plus the corpus '
+      'messages built on them (SSH certificates, RRSIG, SCT) are driven at instants in 1970..2106 biased to +-2h '
+      'around each zone\'s offset transitions (bisected from zoneinfo); composed bytes must equal integer arithmetic '
+      'on the instant under every zone and parse back to it. The zone-free clauses (1/2/3/4/8-byte integers in four '
+      'byte orders incl. overflow rejection, flag sets with shifts, fixed-length and SSH mpints of both signs up to '
+      '4096 bits) ride along as a plain differential oracle against int.to_bytes/from_bytes: all 1- and 2-byte values '
+      'in quick, all 3-byte values in thorough.',
+      'Trusted: int.to_bytes / from_bytes and the RFC 4251 mpint reference written in the check; zoneinfo for locating '
+      'transitions. ByteOrder.NATIVE follows the host CPU, which cannot be varied here.',
+      'deterministic simulation of the process environment (TZ / tzset sweep) + differential oracle for the pure clauses',
+      'DESIGN.md 4.4')
+PENDING.pop('C11', None)
